@@ -97,21 +97,36 @@ MaxCandidates(cls, n) ==
 (* Samplers.                                                               *)
 (* kind  "mps" : MPSBaseQtz.sample_alpha_{sm,gs,none}                      *)
 (*       "sn"  : SuperNetCombiner.sample_alpha_{sm,gs}                     *)
-(* impl  "asis": transcription of the code;  "ref": what the property      *)
+(* im    the implementation variant, a record                              *)
+(*   smp "asis": transcription of the code;  "ref": what the property      *)
 (*       states.  The only difference: SuperNetCombiner.sample_alpha_sm    *)
 (*       tests `if self.hard_softmax` where MPS tests `if hard or not      *)
 (*       training` (finding KF_SNEvalSoft below).                          *)
+(*       "skipflag" / "skipver": two DEFECTIVE variants kept as sanity     *)
+(*       models (they must violate the invariants): an inference-time      *)
+(*       short cut that returns early from a sampling step made in eval    *)
+(*       mode under torch.no_grad() when an earlier such step has cached   *)
+(*       theta_alpha - the cache being invalidated by option updates and   *)
+(*       by training / grad-enabled sampling only ("skipflag"), or by a    *)
+(*       change of alpha._version only ("skipver"; an assignment to        *)
+(*       alpha.data does not change it).                                   *)
+(*   sum TRUE : SuperNetCombiner.summary() re-samples before reporting     *)
+(*       (the pinned code, finding KF_SNSummaryResamples; repaired since)  *)
+(*   exp TRUE : export() of a whole model leaves the eval-mode sample of   *)
+(*       its shape-propagation pass in theta_alpha (pinned code; repaired) *)
 (* r = ranking (or logged alpha) of ONE channel, old = previous class.     *)
 (***************************************************************************)
-EvalIsHard(kind, impl) == kind = "mps" \/ impl = "ref"
+Impl(smp, sum, exp) == [smp |-> smp, sum |-> sum, exp |-> exp]
+Skips == {"skipflag", "skipver"}
+EvalIsHard(kind, im) == kind = "mps" \/ im.smp # "asis"
 
-SampleSM(kind, impl, hard, training, r) ==
-    IF hard \/ (EvalIsHard(kind, impl) /\ ~training) THEN OneHot(ArgMax(r)) ELSE Soft(ArgMax(r))
+SampleSM(kind, im, hard, training, r) ==
+    IF hard \/ (EvalIsHard(kind, im) /\ ~training) THEN OneHot(ArgMax(r)) ELSE Soft(ArgMax(r))
 
-Sample(kind, impl, sampler, hard, training, r, old) ==
+Sample(kind, im, sampler, hard, training, r, old) ==
     CASE sampler = "none"            -> old                         \* sample_alpha_none: return
       [] sampler = "gs" /\ training  -> Prob(hard)                  \* F.gumbel_softmax(alpha, tau, hard)
-      [] OTHER                       -> SampleSM(kind, impl, hard, training, r)
+      [] OTHER                       -> SampleSM(kind, im, hard, training, r)
 
 (***************************************************************************)
 (* Sampler in force after update_softmax_options(<one option>) of MPS.     *)
@@ -120,8 +135,8 @@ Sample(kind, impl, sampler, hard, training, r, old) ==
 (*     elif gumbel is not None and gumbel: gs                              *)
 (*     else: sm                      (an update that does not name them    *)
 (*                                    resets gumbel/disable: finding F08,  *)
-(*                                    owned by C11)                        *)
-(* optimpl "fixed": the two flags are stored (candidate repair of F08).    *)
+(*                                    owned by C11; repaired since)        *)
+(* optimpl "fixed": the two flags are stored.                              *)
 (* C10 conditions its claims on the sampler actually in force, so it must  *)
 (* hold under both.  gum/dis = last explicitly given values.               *)
 (***************************************************************************)
@@ -142,14 +157,21 @@ SamplerAfter(optimpl, opt, v, gum, dis) ==
 (*  fresh   : theta was produced by the last step from the current         *)
 (*            coefficients, options and mode ("after a forward pass")      *)
 (*  sampled : some sampling step has produced theta                        *)
+(*  lastinf : GRAD MODE / mode of the most recent sampling step: it was an *)
+(*            inference step (eval mode under torch.no_grad()).  A history *)
+(*            variable: it does not influence the correct variants, but    *)
+(*            it keeps "an inference pass, then writes to alpha, then      *)
+(*            another inference pass" apart from the same calls after a    *)
+(*            training pass, so that the covering walk executes both.      *)
+(*  skip    : (defective variants only) the inference cache is valid       *)
 (***************************************************************************)
 Chan(s) == DOMAIN s.rank
 
-SampleAll(kind, impl, s) ==
-    [c \in Chan(s) |-> Sample(kind, impl, s.sampler, s.hard, s.training, s.rank[c], s.theta[c])]
+SampleAll(kind, im, s) ==
+    [c \in Chan(s) |-> Sample(kind, im, s.sampler, s.hard, s.training, s.rank[c], s.theta[c])]
 
-DoSample(kind, impl, s) ==
-    [s EXCEPT !.theta = SampleAll(kind, impl, s),
+DoSample(kind, im, s) ==
+    [s EXCEPT !.theta = SampleAll(kind, im, s),
               !.fresh = TRUE,
               !.sampled = (s.sampled \/ s.sampler # "none")]
 
@@ -159,8 +181,8 @@ Canon(optimpl, s) ==
     ELSE [s EXCEPT !.gum = (s.sampler = "gs"), !.dis = (s.sampler = "none")]
 
 \* update_softmax_options(opt = v), opt in {"temp","hard","gumbel","disable"}
-DoOption(kind, optimpl, s, opt, v) ==
-    LET s1 == [s EXCEPT !.fresh = FALSE] IN
+DoOption(kind, im, optimpl, s, opt, v) ==
+    LET s1 == [s EXCEPT !.fresh = FALSE, !.skip = IF im.smp = "skipflag" THEN FALSE ELSE s.skip] IN
     IF kind = "sn"
     THEN \* SuperNet.update_softmax_options: temperature and hard only; sampler fixed at construction
          CASE opt = "temp" -> [s1 EXCEPT !.temp = v]
@@ -173,17 +195,58 @@ DoOption(kind, optimpl, s, opt, v) ==
                      [] OTHER           -> s1
          IN  Canon(optimpl, [s2 EXCEPT !.sampler = SamplerAfter(optimpl, opt, v, s.gum, s.dis)])
 
-DoMode(s, training)    == [s EXCEPT !.training = training, !.fresh = FALSE]
-DoSetAlpha(s, rk)      == [s EXCEPT !.rank = rk, !.fresh = FALSE]
-DoForward(kind, impl, s) == DoSample(kind, impl, s)
-\* summary(): MPS reads alpha; SuperNetCombiner.summary() as implemented calls sample_alpha() first
-DoSummary(kind, impl, s) == IF kind = "sn" /\ impl = "asis" THEN DoSample(kind, impl, s) ELSE s
-\* export() reads alpha only.  As implemented, export() of a whole model re-traces the network in eval mode
-\* and propagates the example input through it (ShapeProp): one eval-mode sampling step as a side effect
-\* (side effects of observers are property C18); the harness restores the training flag afterwards.
-DoExport(kind, impl, ctor, s) ==
-    IF ctor = "model" /\ impl = "asis"
-    THEN LET e == DoSample(kind, impl, [s EXCEPT !.training = FALSE])
+DoMode(s, training) == [s EXCEPT !.training = training, !.fresh = FALSE]
+
+(***************************************************************************)
+(* Writes to the coefficients.  wk = how alpha is written:                 *)
+(*   "copy"  with torch.no_grad(): alpha.copy_(new)       (in place)       *)
+(*   "data"  alpha.data = new                 (alpha._version unchanged)   *)
+(*   "optim" optimizer.step() with a gradient that moves alpha to new      *)
+(*   "load"  load_state_dict(checkpoint): see DoLoad                       *)
+(* All of them only replace the coefficients (the correct variants do not  *)
+(* distinguish them); theta_alpha keeps its value until the next sampling. *)
+(***************************************************************************)
+WriteKinds == {"copy", "data", "optim"}
+BumpsVersion(wk) == wk # "data"
+
+DoSetAlpha(im, s, rk, wk) ==
+    [s EXCEPT !.rank = rk, !.fresh = FALSE,
+              !.skip = IF im.smp = "skipver" /\ BumpsVersion(wk) THEN FALSE ELSE s.skip]
+
+\* class of the theta_alpha buffer stored in a checkpoint that was taken after a sampling step of kind ck
+\* with the checkpoint's coefficients r
+CkptKinds == {"onehot", "soft", "probF", "probT"}
+CkptClass(ck, r) == CASE ck = "onehot" -> OneHot(ArgMax(r))
+                      [] ck = "soft"   -> Soft(ArgMax(r))
+                      [] ck = "probF"  -> Prob(FALSE)
+                      [] OTHER         -> Prob(TRUE)
+
+\* load_state_dict(checkpoint of an object of the same type in ANOTHER state: coefficients rk, theta_alpha of
+\* classes cls, temperature t).  An MPS quantiser registers alpha (parameter), theta_alpha and temperature
+\* (buffers): all three are loaded.  A SuperNetCombiner registers alpha only.  The sampling options (hard,
+\* gumbel, disable) and the mode are plain attributes and stay.
+DoLoad(kind, im, s, rk, cls, t) ==
+    LET s1 == DoSetAlpha(im, s, rk, "load") IN
+    IF kind = "sn" THEN s1
+    ELSE [s1 EXCEPT !.theta = cls, !.temp = t, !.sampled = TRUE]
+
+\* a forward pass; g = grad mode (TRUE: enabled, FALSE: under torch.no_grad())
+DoForward(kind, im, s, g) ==
+    LET inference == ~s.training /\ ~g IN
+    IF s.sampler = "none" THEN DoSample(kind, im, s)                       \* nothing is sampled
+    ELSE IF im.smp \in Skips /\ s.skip /\ inference
+    THEN [s EXCEPT !.fresh = TRUE]                                          \* defective: early return
+    ELSE [DoSample(kind, im, s) EXCEPT !.lastinf = inference,
+                                       !.skip = (im.smp \in Skips /\ inference)]
+
+\* summary(): MPS reads alpha; the pinned SuperNetCombiner.summary() called sample_alpha() first
+DoSummary(kind, im, s) == IF kind = "sn" /\ im.sum THEN DoSample(kind, im, s) ELSE s
+\* export() reads alpha only.  The pinned export() of a whole model re-traced the network in eval mode and
+\* propagated the example input through it (ShapeProp), leaving one eval-mode sample in theta_alpha
+\* (side effects of observers are property C18; repaired since: theta_alpha is put back).
+DoExport(kind, im, ctor, s) ==
+    IF ctor = "model" /\ im.exp
+    THEN LET e == DoSample(kind, im, [s EXCEPT !.training = FALSE])
          IN  [e EXCEPT !.training = s.training, !.fresh = ~s.training]
     ELSE s
 
@@ -197,30 +260,33 @@ DoExport(kind, impl, ctor, s) ==
 (*                first assignment of tie-free coefficients rk0; theta     *)
 (*                aliases alpha and has not been sampled.                  *)
 (*  ctor "model": a decision point inside MPS(...) / SuperNet(...): the    *)
-(*                conversion runs a dummy inference with other options,    *)
-(*                so theta is a stale sample.                              *)
+(*                conversion runs a dummy inference with other options     *)
+(*                (MPS: in eval mode under no_grad), so theta is a stale   *)
+(*                sample.                                                  *)
 (***************************************************************************)
-InitState(kind, impl, optimpl, ctor, rk0, hard, gum, dis, t) ==
+InitState(kind, im, optimpl, ctor, rk0, hard, gum, dis, t) ==
     LET g  == gum
         d  == IF kind = "sn" THEN FALSE ELSE dis       \* a combiner has no disable option
         s0 == Canon(optimpl,
                     [rank |-> rk0, hard |-> hard, gum |-> g, dis |-> d, sampler |-> FromFlags(g, d),
                      training |-> TRUE, temp |-> t,
-                     theta |-> [c \in DOMAIN rk0 |-> Unsampled], fresh |-> FALSE, sampled |-> FALSE])
-    IN  CASE ctor = "model" -> [s0 EXCEPT !.theta = [c \in DOMAIN rk0 |-> Stale], !.sampled = TRUE]
+                     theta |-> [c \in DOMAIN rk0 |-> Unsampled], fresh |-> FALSE, sampled |-> FALSE,
+                     lastinf |-> FALSE, skip |-> FALSE])
+    IN  CASE ctor = "model" -> [s0 EXCEPT !.theta = [c \in DOMAIN rk0 |-> Stale], !.sampled = TRUE,
+                                          !.lastinf = (kind = "mps")]
           [] kind = "sn"    -> s0
-          [] OTHER          -> DoSample(kind, impl, s0)
+          [] OTHER          -> DoSample(kind, im, s0)
 
 (***************************************************************************)
 (* What summary() can designate and what export() keeps.                   *)
 (* MPS: selected_*_precision = precision[argmax(alpha)].                   *)
-(* SuperNet: summary() reports the coefficients it has just re-sampled;    *)
-(* the designated branch is the largest reported one.  export() keeps      *)
-(* best_layer_index() = argmax(alpha).                                     *)
+(* SuperNet: summary() reports normalised coefficients; the designated     *)
+(* branch is the largest reported one (pinned code: of a fresh sample).    *)
+(* export() keeps best_layer_index() = argmax(alpha).                      *)
 (***************************************************************************)
-ReportSet(kind, impl, s, c) ==
-    IF kind = "sn" /\ impl = "asis"
-    THEN MaxCandidates(DoSample(kind, impl, s).theta[c], Len(s.rank[c]))
+ReportSet(kind, im, s, c) ==
+    IF kind = "sn" /\ im.sum
+    THEN MaxCandidates(DoSample(kind, im, s).theta[c], Len(s.rank[c]))
     ELSE {ArgMax(s.rank[c])}
 ExportChoice(s, c) == ArgMax(s.rank[c])
 
@@ -233,6 +299,9 @@ ExportChoice(s, c) == ArgMax(s.rank[c])
 (*  KF_SNSummaryResamples: SuperNet, training mode, Gumbel sampler:        *)
 (*                         summary() reports a fresh noisy sample whose    *)
 (*                         largest entry need not be argmax(alpha)         *)
+(*                         (repaired in the tree; the signature stays so   *)
+(*                         that a regression is recognised and, not being  *)
+(*                         listed as open, reported as a violation)        *)
 (***************************************************************************)
 KF_SNEvalSoft(kind, training, hard)            == kind = "sn" /\ ~training /\ ~hard
 KF_SNSummaryResamples(kind, training, sampler) == kind = "sn" /\ training /\ sampler = "gs"
@@ -253,8 +322,8 @@ GumbelOK(s, c) ==
     (s.fresh /\ s.sampler = "gs" /\ s.training) => s.theta[c] = Prob(s.hard)
 SoftOK(s, c)   ==
     (s.fresh /\ s.sampler = "sm" /\ s.training /\ ~s.hard) => s.theta[c] = Soft(ArgMax(s.rank[c]))
-ReportOK(kind, impl, s, c, allowKF) ==
-    \/ ReportSet(kind, impl, s, c) = {ArgMax(s.rank[c])}
+ReportOK(kind, im, s, c, allowKF) ==
+    \/ ReportSet(kind, im, s, c) = {ArgMax(s.rank[c])}
     \/ allowKF /\ KF_SNSummaryResamples(kind, s.training, s.sampler)
 ExportOK(s, c) == ExportChoice(s, c) = ArgMax(s.rank[c])
 =============================================================================
